@@ -24,6 +24,7 @@ import (
 //	R-no-bypass         HTTP transports reach dispatch targets only through the request entry; the
 //	                    notification path never touches middleware state
 //	R-result-identity   what the transports wrap into the response is the value the entry returned
+//	R-error-internal    every path from the err != nil edge of a transport's call of the entry builds a -32603 answer
 //	R-own-context       the context handed to the dispatcher derives from the request's own context
 func init() { Registry["C15"] = checkC15 }
 
@@ -572,6 +573,116 @@ func checkC15(c *Ctx) {
 	}
 	c.R.Min("R-result-identity", 3)
 	dispatchOwnContext(c, "R-own-context")
+
+	// ---- R-error-internal: "a middleware error becomes a JSON-RPC internal error for that request": wherever a
+	// transport calls the request entry, every path that leaves the err != nil edge builds an answer with code -32603.
+	var internalErr func(call ssa.CallInstruction, d int) bool
+	internalErr = func(call ssa.CallInstruction, d int) bool {
+		for _, a := range call.Common().Args {
+			if n, ok := ir.ConstInt(a); ok && n == -32603 {
+				return true
+			}
+		}
+		if d >= 2 {
+			return false
+		}
+		sc := ir.StaticCallee(call)
+		if sc == nil || !c.P.IsLib(sc) {
+			return false
+		}
+		found := false
+		ir.EachCall(sc, func(in ssa.CallInstruction) {
+			if _, isGo := in.(*ssa.Go); !isGo && internalErr(in, d+1) {
+				found = true
+			}
+		})
+		ir.EachInstr(sc, func(_ *ssa.BasicBlock, _ int, in ssa.Instruction) {
+			if st, ok := in.(*ssa.Store); ok {
+				if n, ok := ir.ConstInt(st.Val); ok && n == -32603 {
+					found = true // the code written into an error object built in place
+				}
+			}
+		})
+		return found
+	}
+	for _, fn := range c.P.LibFns {
+		if clientSide(c, fn) || belowEntry[fn] {
+			continue
+		}
+		nSite := 0
+		ir.EachInstr(fn, func(_ *ssa.BasicBlock, _ int, in ssa.Instruction) {
+			call, ok := in.(*ssa.Call)
+			if !ok || call.Referrers() == nil {
+				return
+			}
+			isEntry := false
+			for _, cal := range ir.Callees(c.G, call) {
+				if cal == entry {
+					isEntry = true
+				}
+			}
+			if !isEntry {
+				return
+			}
+			var errv ssa.Value
+			for _, r := range *call.Referrers() {
+				if ex, ok := r.(*ssa.Extract); ok && ex.Index == 1 {
+					errv = ex
+				}
+			}
+			if errv == nil {
+				return
+			}
+			nSite++
+			construct := sprintf("error of the request entry in %s#%d", fname(fn), nSite)
+			var failEdge *ssa.BasicBlock
+			for _, b := range fn.Blocks {
+				if len(b.Instrs) == 0 {
+					continue
+				}
+				ifi, ok := b.Instrs[len(b.Instrs)-1].(*ssa.If)
+				if !ok {
+					continue
+				}
+				bin, ok := ifi.Cond.(*ssa.BinOp)
+				if !ok || !(bin.X == errv && ir.IsNilConst(bin.Y) || bin.Y == errv && ir.IsNilConst(bin.X)) {
+					continue
+				}
+				if bin.Op == token.NEQ {
+					failEdge = b.Succs[0]
+				} else if bin.Op == token.EQL {
+					failEdge = b.Succs[1]
+				}
+			}
+			if failEdge == nil {
+				c.R.Violate("R-error-internal", construct, c.Pos(call.Pos()), sprintf("%s never tests the error returned by %s: a failing middleware gets no internal-error answer", fname(fn), en))
+				return
+			}
+			// blocks that build the internal error
+			builders := map[*ssa.BasicBlock]bool{}
+			for _, b := range fn.Blocks {
+				for _, in2 := range b.Instrs {
+					if ci, ok := in2.(ssa.CallInstruction); ok {
+						if _, isGo := ci.(*ssa.Go); !isGo && internalErr(ci, 0) {
+							builders[b] = true
+						}
+					}
+				}
+			}
+			ok2 := builders[failEdge]
+			if !ok2 {
+				ok2 = true
+				for b := range flow.BlocksReachableAvoiding(failEdge, builders) {
+					if len(b.Succs) == 0 {
+						ok2 = false
+					}
+				}
+			}
+			c.R.Check(ok2, "R-error-internal", construct, c.Pos(call.Pos()), "every path from the err != nil edge builds a -32603 answer",
+				sprintf("%s can leave the err != nil edge of its call of %s without building an internal-error (-32603) answer: a middleware error of that kind is not answered as a JSON-RPC internal error", fname(fn), en))
+		})
+	}
+	c.R.Min("R-error-internal", 3)
 }
 
 func isMinusOne(v ssa.Value) bool { n, ok := ir.ConstInt(v); return ok && n == -1 }
